@@ -5,7 +5,7 @@ import itertools
 from ..loader import AnalysisError, attr_path, src, walk_no_nested_defs, norm_stmt, call_name
 from ..symx import SymX, classify, show, C, TRUE, FALSE, simp, is_const, mk_add, mk_mul, negate
 from ..guards import Evaluator, EvalUnsupported
-from . import C02, C08
+from . import C02, C08, shared
 from ..pointsto import MUTATORS as _MUTATORS
 
 EXPLANATION = (
@@ -212,9 +212,32 @@ def parse_args_source(ctx, chk, rule, qual=None):
             chk.undecided(rule, f.where(c), "`%s`: where the parsed arguments come from is not recognised" % src(c))
 
 
+def _opens_for_writing(c):
+    if not (isinstance(c, ast.Call) and call_name(c) == "open"):
+        return False
+    mode = c.args[1] if len(c.args) > 1 else next((kw.value for kw in c.keywords if kw.arg == "mode"), None)
+    if mode is None:
+        return False                    # open(path): reading
+    if isinstance(mode, ast.Constant) and isinstance(mode.value, str):
+        return any(ch in mode.value for ch in "wax+")
+    return True                         # a computed mode: may write
+
+
 def r2_order(ctx, chk, rule="C15.2"):
-    f = ctx.func(GEN + "::main")
+    shared.on_both_views(ctx, chk, GEN + "::main", lambda rec, f: _r2_order(ctx, rec, rule, f))
+
+
+def _r2_order(ctx, chk, rule, f):
     cfg = ctx.cfg(f)
+    # the program with every command-line option live (the view above reads options outside the documented interface at their
+    # defaults): no option may open a way around the validation
+    raw = ctx.prog.pipeline_view(GEN + "::main", all_options=True) if ctx.prog.has_func(GEN + "::main") else None
+    if raw is not None and raw.node is not f.node:
+        rci = C02.calls_of(raw, "check_input")
+        if len(rci) == 1 and not ctx.cfg(raw).on_every_normal_path(rci[0]):
+            chk.violation(rule, raw.where(rci[0]), "check_input is not called on every path through main(): some combination of options returns / goes on without validating the parameters",
+                          expected="unconditional call", found="a path around `%s`" % norm_stmt(ctx.cfg(raw).stmt_of(rci[0]))[:80], construct="main check_input call")
+            return
     ci = C02.calls_of(f, "check_input")
     if len(ci) != 1 or not cfg.on_every_normal_path(ci[0]):
         chk.violation(rule, f.where(), "check_input is not called exactly once on every path through main()", expected="unconditional call", found="%d call(s)" % len(ci),
@@ -232,7 +255,7 @@ def r2_order(ctx, chk, rule="C15.2"):
             chk.undecided(rule, f.where(), "no call of %s in main" % m)
     # any other file creation in main before check_input
     for c in walk_no_nested_defs(f.node):
-        if isinstance(c, ast.Call) and call_name(c) in ("open", "os.makedirs", "os.mkdir") and not cfg.dominates(ci[0], c):
+        if isinstance(c, ast.Call) and (call_name(c) in ("os.makedirs", "os.mkdir") or _opens_for_writing(c)) and not cfg.dominates(ci[0], c):
             chk.violation(rule, f.where(c), "`%s` runs before check_input" % src(c), expected="nothing written before validation", found=norm_stmt(cfg.stmt_of(c)),
                           construct="main writes before check_input")
     # ... including what runs before check_input without being written in main: helpers that main calls earlier, and the `type=`
